@@ -34,6 +34,7 @@ func (t *VerifMemTransport) SetPersistency(p Persistency) bool { t.persistency =
 func (t *VerifMemTransport) GetSendQueueSize() uint64          { return 0 }
 func (t *VerifMemTransport) sendFrame(frame []byte) {
 	t.Frames = append(t.Frames, append([]byte(nil), frame...))
+	t.nOutBytes += uint64(len(frame)) // counted as the socket transports count
 }
 func (t *VerifMemTransport) runReceive() { <-t.closed }
 func (t *VerifMemTransport) Close() {
